@@ -92,3 +92,19 @@ Proof.
     rewrite (IH (pre ++ zs ++ info) [0] post f1 (acc ++ [(f, v)]) Hat ltac:(repeat constructor) ltac:(lia)).
     now rewrite <- app_assoc.
 Qed.
+
+(* lookup of an attribute by field name: the value of the first attribute with that field *)
+Theorem mod_find_first (l : list attr) field v :
+  mod_find l field = Some v <->
+  exists pre post, l = pre ++ (field, v) :: post /\ Forall (fun a => fst a <> field) pre.
+Proof.
+  split.
+  - induction l as [|[f x] t IH]; cbn [mod_find]; [discriminate|].
+    destruct (bytes_eqb field f) eqn:E.
+    + intros [= ->]. apply bytes_eqb_spec in E. subst f. exists [], t. split; [reflexivity|constructor].
+    + intros H. destruct (IH H) as (pre & post & -> & Hp). exists ((f, x) :: pre), post. split; [reflexivity|].
+      constructor; [|exact Hp]. cbn. intro Hf. subst f. assert (bytes_eqb field field = true) by now apply bytes_eqb_spec. congruence.
+  - intros (pre & post & -> & Hp). induction Hp as [|[f x] t Hf Ht IH]; cbn [app mod_find].
+    + assert (E : bytes_eqb field field = true) by now apply bytes_eqb_spec. now rewrite E.
+    + cbn in Hf. destruct (bytes_eqb field f) eqn:E; [apply bytes_eqb_spec in E; congruence|exact IH].
+Qed.
